@@ -19,7 +19,7 @@ import (
 )
 
 // events: fan-out of backend events to registered clients.
-// op:   L:<clients> then actions
+// op:   L:<clients> [U:<password|dse> the backend authenticates connections] [O:<i> three nodes; node i is replaced by one that speaks protocol v3 only once the proxy is up] then actions
 //         c<i>[:3] connect client i (with protocol v3) | r<i>:<event types> REGISTER | d<i> disconnect
 //         s<k>:<target>  backend emits schema-change event k | t topology event | u status event
 //         x              the control connection is dropped (the proxy fails over / reconnects)
@@ -66,18 +66,28 @@ func runEvents(op string) (out string) {
 	if strings.HasPrefix(op, "Z:") {
 		return runEventFlood(op)
 	}
+	opts := e2e.Options{Hosts: 2, NumConns: 1, ReconnectBase: 5 * time.Millisecond, ReconnectMax: 20 * time.Millisecond}
+	oldNode := -1
 	for _, t := range strings.Fields(op) {
 		if strings.HasPrefix(t, "L:") {
 			nclients, _ = strconv.Atoi(t[2:])
+		} else if strings.HasPrefix(t, "U:") {
+			opts.Auth = t[2:]
+		} else if strings.HasPrefix(t, "O:") {
+			oldNode, _ = strconv.Atoi(t[2:])
+			opts.Hosts = 3
 		} else {
 			acts = append(acts, t)
 		}
 	}
-	env, err := e2e.Start(e2e.Options{Hosts: 2, NumConns: 1, ReconnectBase: 5 * time.Millisecond, ReconnectMax: 20 * time.Millisecond})
+	env, err := e2e.Start(opts)
 	if err != nil {
 		return "env-error:" + err.Error()
 	}
 	defer env.Close()
+	if oldNode >= 0 && oldNode < len(env.IPs) {
+		env.Cluster.Node(env.IPs[oldNode]).SetMaxVersion(primitive.ProtocolVersion3)
+	}
 	clients := make([]*e2e.Client, nclients)
 	var mu sync.Mutex
 	got := make([][]string, nclients)
@@ -225,6 +235,9 @@ func runEvents(op string) (out string) {
 			mu.Unlock()
 			var once sync.Once
 			env.Cluster.SetAfterRegister(func(c *fakecass.Conn) {
+				if c.Version != primitive.ProtocolVersion4 {
+					return // a connection to the older node: the proxy will not keep it as its control connection
+				}
 				once.Do(func() {
 					f := frame.NewFrame(c.Version, -1, ev)
 					var buf bytes.Buffer
@@ -347,6 +360,10 @@ func genEvents(e *emitter, r *rng.R, n int, tier string) {
 		"L:2 c0 c1 r0:SCHEMA_CHANGE y1:K s2:T",
 		"L:2 c0 c1 r0:SCHEMA_CHANGE r1:SCHEMA_CHANGE s1:T s1:T s2:K s1:T",
 		"L:2 c0:3 c1 r0:SCHEMA_CHANGE r1:SCHEMA_CHANGE s1:F s2:A s3:K s4:T s5:Y s6:F",
+		"L:2 U:password c0 c1 r0:SCHEMA_CHANGE s1:K x s2:T r1:SCHEMA_CHANGE s3:F", // backends that authenticate, with and without a challenge round trip
+		"L:2 U:dse c0 c1 r0:SCHEMA_CHANGE s1:K x s2:T r1:SCHEMA_CHANGE s3:F",
+		"L:2 O:1 c0 c1 r0:SCHEMA_CHANGE r1:SCHEMA_CHANGE s1:K x s2:T x s3:F x s4:A", // a mixed-version cluster: the fail-over passes an older node
+		"L:1 O:2 c0 r0:SCHEMA_CHANGE x s1:K x s2:T x s3:Y",
 		"Z:3600:1500:1500", // more events than every queue on the way holds, with one client not reading
 		"L:1 c0 r0:SCHEMA_CHANGE s1:K y2:T y3:A s4:F",
 	}
@@ -356,6 +373,12 @@ func genEvents(e *emitter, r *rng.R, n int, tier string) {
 		rr := r.Fork(uint64(i))
 		l := 1 + rr.Intn(4)
 		parts := []string{fmt.Sprintf("L:%d", l)}
+		switch rr.Intn(8) {
+		case 0:
+			parts = append(parts, "U:"+rr.Pick([]string{"password", "dse"}))
+		case 1:
+			parts = append(parts, fmt.Sprintf("O:%d", 1+rr.Intn(2)))
+		}
 		ev := 0
 		for j := 0; j < 5+rr.Intn(12); j++ {
 			ci := rr.Intn(l)
